@@ -9,11 +9,19 @@ Ties (real halmos code vs extracted model vs an independent Python rendering of 
              (only run_test is replaced by a recorder): effective config per test function;
   X-codec  : strings from the codec grammars + a malformed stream through ParseTimeout /
              ParseErrorCodes / ParseArrayLengths / ParseCSVInt / ParseCSVTraceEvent and
-             TomlParser.parse_dict; unparse/parse round trips of every parsed value.
+             TomlParser.parse_dict; unparse/parse round trips of every parsed value;
+  X-natspec: NatSpec texts (tags of every kind, decoys, lonely '@', every white space) through the
+             real build.parse_natspec, the extracted model and an independent scanner;
+  X-float  : binary64 values given directly (not through a string): specials, subnormals,
+             whole and near-whole milliseconds, values whose product with 1000 rounds to a whole
+             number, huge and negative values through ParseTimeout.unparse / parse, and the float
+             library model (float(str), repr(float)) against CPython bit for bit.
 """
 import json
+import math
 import os
 import re
+import struct
 import tempfile
 from fractions import Fraction
 from multiprocessing import Pool
@@ -22,23 +30,25 @@ from harness import common
 from harness.common import Model
 
 PID = "C18"
-TRANSLATORS = ["T-config", "T-config-time", "T-config-main"]
+TRANSLATORS = ["T-config", "T-config-time", "T-config-main", "T-config-natspec"]
 
 # Genuine defects of halmos found by this check (the coordinator decides between a fix: commit
 # and known_findings.json).  Same format as known_findings.json entries.
 KNOWN = common.known_for("C18")  # entries live in /verif/known_findings.json
 
 ASSUMPTIONS = [
-    "Python floats are modelled as exact rationals; the tie compares with relative tolerance 1e-9 (binary64 rounding is not modelled)",
+    "Python floats are modelled as IEEE-754 binary64 with round-to-nearest-even (Model/ConfigFloatModel.v): float(str) is the exact decimal value rounded once, repr(float) the shortest string that reads back (closest among the shortest); the model is compared bit for bit with CPython on every generated string and value (no tolerance)",
+    "the independent rendering of the documented timeout grammar computes with exact rationals; the implementation's value may differ from it by float rounding: relative 1e-9, or absolute 1e-300 s (subnormal range)",
     "argparse, toml, shlex, re are trusted (the text of an annotation / command line / toml file is turned into option values by them); the model receives the option values",
-    "str.isspace / digits are modelled for code points <= 255 (ASCII digits only); exponents, inf, nan in float literals are outside the model",
+    "str.isspace / digits are modelled for code points <= 255 (ASCII digits only); float literals with more than 4 exponent digits are outside the model (10^exponent is computed exactly)",
     "lru_cache on Config.__getattribute__ and the frozen dataclass are assumed to make layers immutable (exercised by the tie, not modelled)",
     "the extracted model and driver are faithful to the Coq definitions (extraction is trusted)",
 ]
 
-PARTIAL = ("codec theorems cover ParseTimeout (refuted + partial), ParseCSVInt, ParseErrorCodes, ParseCSVTraceEvent round trips; "
-           "ParseArrayLengths is modelled and tied by correspondence (its regexes are pinned literally) without a Coq round-trip theorem; "
-           "float rounding is not modelled")
+PARTIAL = ("codec theorems cover ParseTimeout (round trip of every binary64 value for which unparse returns; unparse returns for every non-negative value; refuted for a negative value on which it raises), "
+           "ParseCSVInt, ParseErrorCodes (both signs), ParseCSVTraceEvent round trips; "
+           "ParseArrayLengths: round trip proved for every dictionary parse can return, over the hand-written recogniser of the two regexes (pinned literally), which is tied to re.match/re.findall by correspondence only; "
+           "whether 'nan' / 'inf' / a negative number is a well-formed timeout is not decided by the spec rendering (they are accepted by the code, observed and round-tripped)")
 
 
 def install_known():
@@ -48,7 +58,7 @@ def install_known():
 
     def merged():
         kf = orig()
-        have = {k.get("id") for k in kf.get("findings", [])} | {k.get("id") for k in kf.get("fixed", [])}
+        have = {k.get("id") for k in kf.get("findings", [])}     # `fixed` entries are strings and suppress nothing
         kf = dict(kf)
         kf["findings"] = list(kf.get("findings", [])) + [k for k in KNOWN if k["id"] not in have]
         return kf
@@ -564,7 +574,7 @@ INT10 = r"[+-]?[0-9](?:_?[0-9])*"
 SPEC_INT0 = re.compile(r"^[+-]?(?:0[xX](?:_?[0-9a-fA-F])+|0[oO](?:_?[0-7])+|0[bB](?:_?[01])+|[1-9](?:_?[0-9])*|0(?:_?0)*)$")
 SPEC_INT10 = re.compile("^" + INT10 + "$")
 WS = "\t\n\x0b\x0c\r\x1c\x1d\x1e\x1f \x85\xa0"
-SPEC_FLOAT = re.compile(r"^[+-]?(?:[0-9](?:_?[0-9])*(?:\.(?:[0-9](?:_?[0-9])*)?)?|\.[0-9](?:_?[0-9])*)$")
+SPEC_FLOAT = re.compile(r"^[+-]?(?:[0-9](?:_?[0-9])*(?:\.(?:[0-9](?:_?[0-9])*)?)?|\.[0-9](?:_?[0-9])*)(?:[eE][+-]?[0-9](?:_?[0-9])*)?$")
 
 
 def spec_int(s, base):
@@ -663,6 +673,11 @@ def spec_arrlen(s):
     return out
 
 
+def spec_undecided(codec, s):
+    """strings on which the documented grammar is silent: the words float() also accepts"""
+    return codec == "timeout" and re.search(r"(?i)inf|nan", s) is not None
+
+
 CODECS = ["timeout", "csvint", "errcodes", "trace", "arrlen"]
 SPEC_PARSE = {"timeout": spec_timeout, "csvint": spec_csvint, "errcodes": spec_errcodes, "trace": spec_trace, "arrlen": spec_arrlen}
 
@@ -695,8 +710,14 @@ def gen_codec_strings(tier, r):
             body = r.choice(["", str(r.randint(0, 2000))]) + "." + r.choice(["", str(r.randint(0, 999)), "5", "25", "001", "0005"])
         elif c < 0.85:
             body = num(r)
-        else:
+        elif c < 0.92:
             body = r.choice(["", "-5", "+3", ".", "1_0", "1._5", "_1", "abc", "5 ", " 5", "1,5", "0x10", "5S", "--1", "1.2.3", "5m5", "٣"[:0] + "7"])
+        else:
+            # scientific notation, the words float() knows, huge / tiny / negative magnitudes
+            body = r.choice(["", "", "-", "+"]) + r.choice([
+                "%de%d" % (r.randint(0, 999), r.randint(-12, 12)), "%d.%de%s%d" % (r.randint(0, 9), r.randint(0, 999), r.choice(["", "+", "-"]), r.randint(0, 30)),
+                "1e%d" % r.randint(290, 320), "%de-%d" % (r.randint(1, 9), r.randint(300, 330)), "%de%d" % (r.randint(1, 17), r.randint(304, 307)),
+                "1E3", "1e", "e5", ".e1", "1.e2", ".5e1", "1e+", "1e_1", "1_0e1_0", "1e1.5", "inf", "Infinity", "INF", "nan", "NaN", "infinit", "nan0", "in"])
         unit = r.choice(["", "", "ms", "ms", "s", "s", "m", "h", "S", "sec", "mss", "hs", "us", " s", "s "])
         out.append(("timeout", ws() * (r.random() < 0.1) + body + unit))
     # ms integers exhaustively up to a bound (float product int(v*1000))
@@ -797,8 +818,137 @@ def impl_codec(args):
 
 def close(f_hex, frac):
     x = float.fromhex(f_hex)
-    y = float(frac)
-    return x == y or abs(x - y) <= 1e-9 * max(abs(x), abs(y))
+    try:
+        y = float(frac)
+    except OverflowError:
+        y = math.inf if frac > 0 else -math.inf
+    # relative 1e-9; absolute 1e-300 for the subnormal range, where one float rounding already has a
+    # large relative error (float("2e-318") * 3600)
+    return x == y or abs(x - y) <= 1e-9 * max(abs(x), abs(y)) or abs(x - y) <= 1e-300
+
+
+# ---- binary64 <-> model encoding [tag; neg; k]: tag 0 finite (magnitude k in units of 2^-1074), 1 inf, 2 nan
+def f_enc(v):
+    if v != v:
+        return [2, 0, 0]
+    if v in (math.inf, -math.inf):
+        return [1, int(v < 0), 0]
+    k = Fraction(abs(v)) * (1 << 1074)
+    assert k.denominator == 1
+    return [0, int(math.copysign(1.0, v) < 0), k.numerator]
+
+
+def same_float(a, b):
+    """what 'survives' means for a float value: the same number (the zeros are one number), the
+    same infinity, or nan again"""
+    return a == b or (a != a and b != b)
+
+
+def gen_float_values(tier, r):
+    """values handed to ParseTimeout.unparse directly, as float.hex() strings"""
+    big = tier != "quick"
+    vals = [0.0, -0.0, math.inf, -math.inf, math.nan, 5e-324, -5e-324, 2.2250738585072014e-308, 1.7976931348623157e308, -1.7976931348623157e308,
+            1.0, 1.5, 0.5, 0.001, 0.0005, 0.0015, 1e-3 + 2 ** -62, 999.999, 1000.0, 59.999, 1e15, 1e16, 1e17, 2.0 ** 52, 2.0 ** 52 + 1, 2.0 ** 53, 2.0 ** 53 + 2,
+            4503599627370495.5, 4503599627370.4955, 1e22, 1e23, 1.7976931348623157e305, 1.7976931348623158e305, -1.7976931348623157e305, -1.7976931348623158e305,
+            -1e306, -2.5e307, 1e306, 0.1, 0.2, 0.3, 1 / 3, 2 / 3, 1e-5, 1e-4, 0.0001, 123456.789, 9007199254740993.0, 0.30000000000000004]
+    n1, n2, n3 = (220, 30, 12) if not big else (6000, 1500, 600)
+    for _ in range(n1):
+        c = r.random()
+        if c < 0.3:        # whole milliseconds and their float neighbours
+            v = r.randint(0, 10 ** r.randint(1, 9)) / 1000
+            v = r.choice([v, v, math.nextafter(v, math.inf), math.nextafter(v, -math.inf)])
+        elif c < 0.45:     # product with 1000 is a whole number only after rounding (ulp(v * 1000) >= 1)
+            v = float(r.randint(2 ** 43, 2 ** 52)) + r.choice([0.5, 0.25, 0.125]) * r.randint(0, 1)
+            v = v / r.choice([1, 2, 4, 8])
+        elif c < 0.6:      # whole seconds, halves
+            v = float(r.randint(0, 10 ** r.randint(1, 17))) + r.choice([0.0, 0.0, 0.5])
+        elif c < 0.75:     # short decimals
+            v = float("%d.%d" % (r.randint(0, 10 ** 4), r.randint(0, 10 ** r.randint(1, 6))))
+        elif c < 0.85:
+            v = r.random() * 10 ** r.randint(-8, 8)
+        else:
+            v = r.randint(1, 2 ** 53) * 2.0 ** r.randint(-60, 40)
+        if r.random() < 0.12:
+            v = -v
+        vals.append(v)
+    # value * 1000 is whole only because the product was rounded, and dividing it by 1000 does NOT
+    # give the value back (about 2% of the non-whole values above 2^43): searched for, both signs
+    want, tries = (14 if not big else 300), 0
+    while want and tries < 400000:
+        tries += 1
+        v = (r.randint(2 ** 43, 2 ** 52) + r.choice([0.5, 0.25, 0.125, 0.375])) / r.choice([1, 2, 4, 8]) if tries % 2 else r.uniform(2.0 ** 40, 2.0 ** 52)
+        ms = v * 1000
+        if v != int(v) and ms == int(ms) and ms / 1000 != v:
+            vals.append(v if want % 3 else -v)
+            want -= 1
+    for _ in range(n2):    # magnitudes next to the overflow of value * 1000, both signs
+        v = r.uniform(1.0, 9.9) * 10 ** r.choice([304, 305, 305, 306, 307])
+        vals.append(v if r.random() < 0.5 else -v)
+    for _ in range(n3):    # any bit pattern
+        v = struct.unpack("<d", struct.pack("<Q", r.getrandbits(64)))[0]
+        vals.append(v)
+    for e in (range(-1074, 1024, 131) if not big else range(-1074, 1024, 7)):
+        vals.append(2.0 ** e)
+    seen, out = set(), []
+    for v in vals:
+        h = float(v).hex()
+        if h not in seen:
+            seen.add(h)
+            out.append(h)
+    return out
+
+
+def toml_number(x):
+    """a number (not a string) as the value of a timeout key of halmos.toml"""
+    import halmos.config as hc
+
+    try:
+        d = hc.toml_parser().parse_dict({"global": {"solver-timeout-branching": x}})
+        return float(d["solver_timeout_branching"]).hex()
+    except ValueError:
+        return "REJECT"
+    except BaseException as e:  # noqa: BLE001
+        return f"EXC {type(e).__name__}"
+
+
+def impl_int(i):
+    return {"toml": toml_number(i)}
+
+
+def gen_int_values(tier, r):
+    vals = [0, 1, 2, 5, 999, 1000, 1001, 1500, 60000, -1, -5, 2 ** 53, 2 ** 53 + 1, 10 ** 20, 10 ** 23, 10 ** 308, 10 ** 309, -10 ** 309, 17976931348623157 * 10 ** 292]
+    for _ in range(60 if tier == "quick" else 3000):
+        v = r.randint(0, 10 ** r.randint(1, 30))
+        vals.append(-v if r.random() < 0.1 else v)
+    return sorted(set(vals))
+
+
+def impl_float(h):
+    """ParseTimeout.unparse / parse and CPython's repr / float on one value"""
+    import halmos.config as hc
+
+    v = float.fromhex(h)
+    out = {"repr": repr(v), "toml": toml_number(v)}
+    try:
+        u = hc.ParseTimeout.unparse(v)
+    except Exception as e:  # noqa: BLE001
+        out["unparse"] = None
+        out["unparse_exc"] = f"{type(e).__name__}: {e}"
+        return out
+    out["unparse"] = u
+    try:
+        out["reparse"] = float(hc.ParseTimeout.parse(u)).hex()
+    except Exception as e:  # noqa: BLE001
+        out["reparse"] = f"EXC {type(e).__name__}"
+    return out
+
+
+def raises_sig(v):
+    """precise signature of a raising unparse: the one recorded case is a negative value whose
+    product with 1000 is -inf"""
+    if v == v and abs(v) != math.inf and v < 0 and v * 1000 == -math.inf:
+        return "unparse-raises-negative-overflow"
+    return "unparse-raises"
 
 
 def model_codec_calls(codec, s):
@@ -809,9 +959,58 @@ def in_model_alphabet(codec, s):
     if any(ord(c) > 255 for c in s):
         return False
     if codec == "timeout":
-        # exponents / inf / nan are outside the model
-        return not re.search(r"[eEinfatyINFATY\x1c-\x1f]", s)
+        # the model computes 10^exponent exactly: keep exponents to 4 digits
+        return not re.search(r"[\x1c-\x1f]", s) and not re.search(r"[eE][+-]?[0-9_]{5,}", s)
     return True
+
+
+# ----------------------------------------------------------------- X-natspec
+
+NATSPEC_PIECES = ["@custom:halmos", "@custom:halmos", "@custom:halmos", "@notice", "@dev", "@custom:halmosx", "@custom:halmo", "@Custom:halmos", "x@custom:halmos",
+                  "@custom:halmos@dev", "@", "@@", "@ ", "a@b", " ", " ", "  ", "\n", "\t", "\n   ", "\xa0", "\x1f", "\x85", "--loop 3", "--width 5 --ffi",
+                  "title", "blah blah", "--solver-timeout-assertion 10s", ".", "", "\x0c", "@param x", "@return", "{", "@custom:halmos\t--depth 4"]
+
+
+def gen_natspec_texts(tier, r):
+    out = ["", "@custom:halmos", "@custom:halmos ", " @custom:halmos --loop 1 ", "@custom:halmos --a\n@custom:halmos --b", "x @custom:halmos --a @dev --b @custom:halmos --c",
+           "@dev --a @custom:halmos", "@custom:halmos--a", "@", "@ @custom:halmos a", "a@custom:halmos b", "@custom:halmos a @", "@custom:halmos a @ b @x c", None]
+    for _ in range(400 if tier == "quick" else 20000):
+        out.append("".join(r.choice(NATSPEC_PIECES) for _ in range(r.randint(0, 9))))
+    seen, uniq = set(), []
+    for t in out:
+        if t not in seen:
+            seen.add(t)
+            uniq.append(t)
+    return uniq
+
+
+def impl_natspec(t):
+    from halmos.build import parse_natspec
+
+    try:
+        return parse_natspec({} if t is None else {"text": t, "id": 3})
+    except Exception as e:  # noqa: BLE001
+        return f"EXC {type(e).__name__}"
+
+
+def spec_natspec(t):
+    """independent scanner (no regular expression): a tag is '@' followed by a maximal non-empty run
+    of non-white-space; the annotation is what follows each @custom:halmos tag up to the next tag,
+    concatenated and stripped"""
+    t = t or ""
+    n, i, res, on = len(t), 0, [], False
+    while i < n:
+        if t[i] == "@" and i + 1 < n and not t[i + 1].isspace():
+            j = i + 1
+            while j < n and not t[j].isspace():
+                j += 1
+            on = t[i:j] == "@custom:halmos"
+            i = j
+        else:
+            if on:
+                res.append(t[i])
+            i += 1
+    return "".join(res).strip()
 
 
 # ----------------------------------------------------------------- run
@@ -840,12 +1039,21 @@ def run(rep, tier):
     stack_cases = gen_stack_cases(tier, r)
     runner_cases = gen_runner_cases(tier, r)
     codec_cases = gen_codec_strings(tier, r)
+    float_cases = gen_float_values(tier, r)
+    int_cases = gen_int_values(tier, r)
+    natspec_cases = gen_natspec_texts(tier, r)
     with Pool(min(16, os.cpu_count() or 4)) as pool:
         a_stack = pool.map_async(impl_stack_case, stack_cases, chunksize=32)
         a_run = pool.map_async(impl_runner_case, runner_cases, chunksize=1)
         a_codec = pool.map_async(impl_codec, codec_cases, chunksize=128)
+        a_float = pool.map_async(impl_float, float_cases, chunksize=64)
+        a_int = pool.map_async(impl_int, int_cases, chunksize=64)
+        a_nat = pool.map_async(impl_natspec, natspec_cases, chunksize=128)
         stack_impl = a_stack.get()
         codec_impl = a_codec.get()
+        float_impl = a_float.get()
+        int_impl = a_int.get()
+        natspec_impl = a_nat.get()
         runner_impl = a_run.get()
 
     # ---------------- X-stack
@@ -899,7 +1107,21 @@ def run(rep, tier):
     rep.coverage["runner_functions_checked"] = nfun
     rep.coverage["exhaustive"] = True
     rep.coverage["exhaustive_note"] = ("X-stack includes every stack of height <= %d over sources 1..5 x {set, unset} for one option and every stack of height <= %d over "
-                                       "sources x {solver set/unset} x {solver_command unset/''/'cmdA'}; X-codec includes every integer-ms timeout below the bound") % ((3, 2) if tier == "quick" else (5, 3))
+                                       "sources x {solver set/unset} x {solver_command unset/''/'cmdA'}; X-codec includes every integer-ms timeout below the bound; X-float includes the non-finite values, both zeros, the extreme subnormal/normal magnitudes and a searched set of values whose product with 1000 is whole only after rounding and does not divide back") % ((3, 2) if tier == "quick" else (5, 3))
+
+    # ---------------- X-natspec
+    nres = m.parallel_batch([("c18_natspec", S(t or "")) for t in natspec_cases]) if m is not None else None
+    for k, t in enumerate(natspec_cases):
+        got = natspec_impl[k]
+        ntags = (t or "").count("@custom:halmos")
+        rep.count("natspec_halmos_tags", min(ntags, 4))
+        rep.case({"natspec": t}, nontrivial=ntags > 0)
+        want = spec_natspec(t)
+        case = {"tie": "X-natspec", "text": t, "implementation": got, "spec": want}
+        if got != want:
+            fail("failing-input", f"parse_natspec({t!r}) = {got!r}; the text of the @custom:halmos tags is {want!r}", case, sig={"tie": "natspec"})
+        elif nres is not None and (nres[k] is None or U(nres[k]) != got):
+            fail("broken-tie", f"parse_natspec({t!r}): model {None if nres[k] is None else U(nres[k])!r}, implementation {got!r}", case)
 
     # ---------------- X-codec
     calls = []
@@ -922,7 +1144,7 @@ def run(rep, tier):
         spec = SPEC_PARSE[codec](s)
         inalpha = in_model_alphabet(codec, s)
         # (1) rejection / value: spec vs implementation
-        if inalpha:
+        if inalpha and not spec_undecided(codec, s):
             if spec is None and accepted:
                 fail("failing-input", f"{codec}: malformed value {s!r} is accepted as {o['parse']}", {"tie": "X-codec", "codec": codec, "string": s, "implementation": o["parse"]}, sig={"codec": codec, "defect": "malformed-accepted"})
                 continue
@@ -936,19 +1158,24 @@ def run(rep, tier):
             fail("failing-input", f"{codec}: TomlParser.parse_dict gives {o.get('toml')} for {s!r}, the command line gives {o['parse']}", {"tie": "X-codec", "codec": codec, "string": s}, sig={"codec": codec, "defect": "toml-differs"})
         # (2) round trip of the parsed value: spec vs implementation
         if accepted and inalpha:
-            if o.get("unparse") is None or o.get("reparse") != o["parse"]:
-                neg = codec == "errcodes" and any(x < 0 for x in o["parse"])
+            if o.get("unparse") is None:
+                defect = raises_sig(float.fromhex(o["parse"][1])) if codec == "timeout" else "unparse-raises"
                 fail("failing-input",
-                     f"{codec}: value {o['parse']} (from {s!r}) does not survive unparse/parse: unparse -> {o.get('unparse')!r} -> {o.get('reparse', o.get('unparse_exc'))}",
+                     f"{codec}: unparse raises {o.get('unparse_exc')} on the value {o['parse']} that parse gives for {s!r}",
+                     {"tie": "X-codec", "codec": codec, "string": s, "value": o["parse"]},
+                     sig={"codec": codec, "defect": defect})
+            elif not survives(codec, o["parse"], o.get("reparse")):
+                fail("failing-input",
+                     f"{codec}: value {o['parse']} (from {s!r}) does not survive unparse/parse: unparse -> {o.get('unparse')!r} -> {o.get('reparse')}",
                      {"tie": "X-codec", "codec": codec, "string": s, "value": o["parse"], "unparse": o.get("unparse"), "reparse": o.get("reparse")},
-                     sig={"codec": codec, "defect": "roundtrip-negative" if neg else "roundtrip"})
+                     sig={"codec": codec, "defect": "roundtrip"})
         # (3) model vs implementation
         if k in mparse:
             mr = mparse[k]
             d = model_parse_differs(codec, mr, o)
             if d:
                 fail("broken-tie", f"{codec}: model and implementation disagree on {s!r}: {d}", {"tie": "X-codec", "codec": codec, "string": s, "detail": d})
-            elif accepted and o.get("unparse") is not None and not (codec == "timeout" and abs(float.fromhex(o["parse"][1])) >= 2.0**40):
+            elif accepted:
                 uidx.append(k)
                 ucalls.append(model_unparse_call(codec, mr))
     if m is not None and ucalls:
@@ -956,22 +1183,99 @@ def run(rep, tier):
         for k, ur in zip(uidx, ures):
             codec, s = codec_cases[k]
             o = codec_impl[k]
-            if codec == "errcodes":
-                ok = sorted(U(ur).split(",")) == sorted(o["unparse"].split(","))
+            if ur is None:
+                ok, mu = False, "model error"
+            elif codec == "timeout":
+                mu = None if ur[:1] == [0] else U(ur[1:])        # [0] = the model's unparse raises
+                ok = mu == o.get("unparse")
+            elif o.get("unparse") is None:
+                ok, mu = False, U(ur)
+            elif codec == "errcodes":
+                mu = U(ur)
+                ok = sorted(mu.split(",")) == sorted(o["unparse"].split(","))
             else:
-                ok = U(ur) == o["unparse"]
+                mu = U(ur)
+                ok = mu == o["unparse"]
             if not ok:
-                fail("broken-tie", f"{codec}: unparse of {o['parse']}: model {U(ur)!r}, implementation {o['unparse']!r}", {"tie": "X-codec", "codec": codec, "string": s})
-    rep.coverage["traces_validated_against_impl"] = (len(stack_cases) + nfun + len(idx)) if m is not None else 0
+                fail("broken-tie", f"{codec}: unparse of {o['parse']}: model {mu!r}, implementation {o.get('unparse')!r}", {"tie": "X-codec", "codec": codec, "string": s})
+
+    # ---------------- X-float: values handed to ParseTimeout.unparse directly
+    fres = None
+    if m is not None:
+        encs = [f_enc(float.fromhex(h)) for h in float_cases]
+        fres = m.parallel_batch([("c18_timeout_unparse", e) for e in encs] + [("c18_float_repr", e) for e in encs]
+                                + [("c18_timeout_parse_float", e) for e in encs] + [("c18_timeout_parse_int", [i]) for i in int_cases])
+    nfl = len(float_cases)
+    for k, h in enumerate(float_cases):
+        v = float.fromhex(h)
+        o = float_impl[k]
+        kind = "nan" if v != v else "inf" if abs(v) == math.inf else "zero" if v == 0 else "subnormal" if abs(v) < 2.2250738585072014e-308 else \
+            "negative" if v < 0 else "whole-s" if v >= 1 and v == int(v) else "whole-ms" if v * 1000 == int(v * 1000) and v * 1000 / 1000 == v else \
+            "ms-whole-not-dividing-back" if v * 1000 == int(v * 1000) else "other"
+        rep.count("float_kind", kind)
+        rep.count("float_rendering", "raises" if o["unparse"] is None else "ms" if o["unparse"].endswith("ms") else "exact" if o["unparse"] == repr(v) + "s" else "s")
+        rep.case({"float": h}, nontrivial=True)
+        case = {"tie": "X-float", "codec": "timeout", "value": h, "repr": o["repr"], "unparse": o.get("unparse"), "reparse": o.get("reparse")}
+        # spec vs implementation: the value survives
+        if o["unparse"] is None:
+            fail("failing-input", f"timeout: unparse raises {o.get('unparse_exc')} on the float {o['repr']} ({h})", case, sig={"codec": "timeout", "defect": raises_sig(v)})
+        elif str(o["reparse"]).startswith("EXC") or not same_float(float.fromhex(o["reparse"]), v):
+            fail("failing-input", f"timeout: the float {o['repr']} ({h}) does not survive unparse/parse: unparse -> {o['unparse']!r} -> {o['reparse']}", case, sig={"codec": "timeout", "defect": "roundtrip"})
+        # model vs implementation (strings, exactly)
+        if fres is not None:
+            mu, mr = fres[k], fres[nfl + k]
+            mus = "model error" if mu is None else None if mu[:1] == [0] else U(mu[1:])
+            if mus != o["unparse"]:
+                fail("broken-tie", f"timeout: unparse of the float {o['repr']} ({h}): model {mus!r}, implementation {o['unparse']!r}", case)
+            if mr is None or U(mr) != o["repr"]:
+                fail("broken-tie", f"float model: repr of {h}: model {None if mr is None else U(mr)!r}, CPython {o['repr']!r}", case)
+            mt = fres[2 * nfl + k]
+            if num_differs(mt, o["toml"]):
+                fail("broken-tie", f"timeout: the float {o['repr']} as a number in halmos.toml: model {mt}, implementation {o['toml']}", case)
+        # a number in the file is a number of milliseconds (spec), and x / 1000 rounded once (model)
+        finite = v == v and abs(v) != math.inf
+        if o["toml"].startswith("EXC") or (o["toml"] == "REJECT" and finite and v >= 0) or (o["toml"] != "REJECT" and finite and not close(o["toml"], Fraction(v) / 1000)):
+            fail("failing-input", f"timeout: the number {o['repr']} in halmos.toml is read as {o['toml']}, the documented meaning is {o['repr']} milliseconds", case, sig={"codec": "timeout", "defect": "toml-number"})
+    for k, i in enumerate(int_cases):
+        o = int_impl[k]
+        rep.count("toml_int", "negative" if i < 0 else "zero" if i == 0 else "<2^53" if i < 2 ** 53 else "big")
+        rep.case({"toml_int": i}, nontrivial=True)
+        case = {"tie": "X-float", "codec": "timeout", "toml_int": i, "implementation": o["toml"]}
+        if o["toml"] == "REJECT" or o["toml"].startswith("EXC") or not close(o["toml"], Fraction(i, 1000)):
+            fail("failing-input", f"timeout: the integer {i} in halmos.toml is read as {o['toml']}, the documented meaning is {i} milliseconds", case, sig={"codec": "timeout", "defect": "toml-number"})
+        if fres is not None and num_differs(fres[3 * nfl + k], o["toml"]):
+            fail("broken-tie", f"timeout: the integer {i} as a number in halmos.toml: model {fres[3 * nfl + k]}, implementation {o['toml']}", case)
+    rep.coverage["traces_validated_against_impl"] = (len(stack_cases) + nfun + len(idx) + (nfl if fres is not None else 0)) if m is not None else 0
     return rep.finish(
-        checker_cmd="make -C coq Props/C18.vo (coq_makefile, coqc 8.16.1) after regenerating coq/Gen/GenConfig.v, GenConfigTime.v, GenConfigMain.v from /repo/src/halmos/{config,utils,__main__}.py",
+        checker_cmd="make -C coq Props/C18.vo (coq_makefile, coqc 8.16.1) after regenerating coq/Gen/GenConfig.v, GenConfigTime.v, GenConfigMain.v, GenConfigNatspec.v from /repo/src/halmos/{config,utils,__main__,build}.py",
         trusted_base=common.TRUSTED_BASE_COMMON + ["argparse / toml / shlex / re of CPython 3.12 (annotation text -> option values)"],
         assumptions=ASSUMPTIONS,
         partial=PARTIAL,
         rule="X-stack: random stacks of 1..9 layers (bottom optionally the real default_config()), sources 0..5 with many equal sources, random subsets of 14 representative options including falsy values (0, False, '', empty set), built with the real Config/with_overrides; observed: value_with_source, two attribute reads, resolved_solver_command for every option; non-trivial = height >= 2. "
              "X-runner: fabricated forge projects (1-3 contracts x 1-3 test functions, natspec with @custom:halmos in single/multi-line/multi-tag/mid-line placements and decoy tags, devdoc entries, halmos.toml, command line) run through the real _main/run_contract/run_tests with run_test replaced by a recorder; non-trivial = at least one annotation. "
-             "X-codec: grammar-generated and malformed strings per codec, all integer ms/s timeouts up to a bound; observed: parse (value or rejection), TomlParser.parse_dict, unparse, re-parse; compared with an independent regex/Fraction rendering of the documented grammar and with the extracted model. distinct by hash of the case.",
+             "X-natspec: concatenations of 0-9 pieces (halmos tags, other tags, near-miss tags, lonely and doubled '@', tags glued to text, every kind of white space, option text) and the missing-text case through the real build.parse_natspec; compared with an independent regex-free scanner and with the extracted model; non-trivial = contains @custom:halmos. "
+             "X-codec: grammar-generated and malformed strings per codec (timeouts: decimals, scientific notation, the words float() knows, huge/tiny/negative magnitudes), all integer ms/s timeouts up to a bound; observed: parse (value or rejection), TomlParser.parse_dict, unparse, re-parse; compared with an independent regex/Fraction rendering of the documented grammar and, bit for bit, with the extracted model. "
+             "X-float also hands every value, and a list of integers (0, small, above 2^53, up to 1e309, negative), to TomlParser.parse_dict as a NUMBER (parse_time's int|float arm): spec = that many milliseconds, model = x/1000 rounded once, bit for bit. "
+             "X-float: binary64 values handed to ParseTimeout.unparse directly (specials, subnormals, whole milliseconds and their neighbours, values whose product with 1000 is whole only after rounding, whole seconds and halves up to 1e17, magnitudes next to the overflow of value*1000 in both signs, random bit patterns, powers of two); observed: unparse (string or exception), re-parse, repr; the value must survive (same number / same infinity / nan again) and the model must give the same strings. distinct by hash of the case.",
     )
+
+
+def num_differs(mres, impl_hex):
+    """model result [0] | [1; tag; neg; k] against the implementation's float.hex() / REJECT"""
+    if mres is None:
+        return True
+    if impl_hex == "REJECT" or impl_hex.startswith("EXC"):
+        return mres != [0]
+    return mres != [1] + f_enc(float.fromhex(impl_hex))
+
+
+def survives(codec, parsed, reparsed):
+    """round trip of a parsed value, compared as values (floats: the same number / infinity / nan)"""
+    if reparsed is None or reparsed == "REJECT":
+        return False
+    if codec == "timeout":
+        return same_float(float.fromhex(parsed[1]), float.fromhex(reparsed[1]))
+    return parsed == reparsed
 
 
 def same_value(codec, got, spec):
@@ -995,7 +1299,7 @@ def model_parse_differs(codec, mr, o):
     if not accepted:
         return {"model": mr[1:], "implementation": o["parse"]}
     if codec == "timeout":
-        return None if close(o["parse"][1], Fraction(mr[1], mr[2])) else {"model": f"{mr[1]}/{mr[2]}", "implementation": float.fromhex(o["parse"][1])}
+        return None if mr[1:] == f_enc(float.fromhex(o["parse"][1])) else {"model": mr[1:3] + [hex(mr[3])] if len(mr) > 3 else mr, "implementation": o["parse"][1]}
     if codec == "errcodes":
         return None if sorted(set(mr[1:])) == o["parse"] else {"model": mr[1:], "implementation": o["parse"]}
     if codec == "trace":
@@ -1019,7 +1323,7 @@ def model_parse_differs(codec, mr, o):
 def model_unparse_call(codec, mr):
     """feed the MODEL's parsed value to the model's unparse"""
     if codec == "timeout":
-        return ("c18_timeout_unparse", [mr[1], mr[2]])
+        return ("c18_timeout_unparse", mr[1:4])
     if codec == "errcodes":
         seen, vals = set(), []
         for v in mr[1:]:
@@ -1035,7 +1339,11 @@ def model_unparse_call(codec, mr):
 def replay(rep, body):
     for f in body.get("failures", []):
         case = f.get("case") or {}
-        if case.get("tie") == "X-codec":
+        if case.get("tie") == "X-natspec":
+            print("natspec", repr(case["text"]), "->", repr(impl_natspec(case["text"])), "spec:", repr(spec_natspec(case["text"])))
+        elif case.get("tie") == "X-float":
+            print("float", case["value"], "->", impl_float(case["value"]))
+        elif case.get("tie") == "X-codec":
             print("codec", case["codec"], repr(case["string"]), "->", impl_codec((case["codec"], case["string"])), "spec:", SPEC_PARSE[case["codec"]](case["string"]))
         elif case.get("tie") == "X-stack":
             print("stack", case["stack"], "->", impl_stack_case(case["stack"]))
